@@ -107,10 +107,25 @@ where
     where
         T: Ord,
     {
-        let a = parse_filesize(&self.values[i].to_string()).unwrap_or(0);
-        let b = parse_filesize(&other.values[i].to_string()).unwrap_or(0);
+        let a = self.values[i].to_string();
+        let b = other.values[i].to_string();
 
-        a.cmp(&b)
+        // whole numbers, of either sign, compare exactly
+        if let (Ok(x), Ok(y)) = (a.parse::<i64>(), b.parse::<i64>()) {
+            return x.cmp(&y);
+        }
+
+        let x = Self::numeric_key(&a);
+        let y = Self::numeric_key(&b);
+
+        x.partial_cmp(&y).unwrap_or(Ordering::Equal)
+    }
+
+    fn numeric_key(s: &str) -> f64 {
+        match s.parse::<f64>() {
+            Ok(value) => value,
+            _ => parse_filesize(s).unwrap_or(0) as f64,
+        }
     }
 
     #[inline]
